@@ -1,9 +1,9 @@
-(* Obligation C10/half_apply_zero.  Statement as printed by Coq from Inferno.C10.KernelProofs; proof by reference.
+(* Obligation C10/half_apply_zero.  Statement as printed by Coq from Inferno.C10.KernelAlgebra; proof by reference.
    This file contains nothing else, so the statement cannot be weakened quietly. *)
 From Coq Require Import List ZArith Bool Arith Reals Lra Lia Permutation.
-From Inferno Require Import Base.Num Base.NumR Gen.Bounding C10.Updater C10.KernelProofs C10.AccProofs C10.OrderProofs C10.WorldProofs C10.UpdateProofs C10.InterleaveProofs.
+From Inferno Require Import Base.Num Base.NumR Gen.Bounding C10.Updater C10.KernelAlgebra.
 Import ListNotations.
 Open Scope R_scope.
 Theorem half_apply_zero : forall (k : halfk RN) (lim x : T RN), half_apply RN k lim x 0 = 0.
-Proof. exact (@Inferno.C10.KernelProofs.half_apply_zero). Qed.
+Proof. exact (@Inferno.C10.KernelAlgebra.half_apply_zero). Qed.
 Print Assumptions half_apply_zero.
